@@ -30,7 +30,8 @@ extern int simk_passthrough;          /* 1: real time/blocking, log only */
 void tr(const char *fmt, ...) __attribute__((format(printf, 1, 2)));
 void tr_flush(void);
 void tr_open(int fd);
-#define TS(x) (long long)((x) < 0 ? -1 : (x) / NSEC), (long long)((x) < 0 ? 0 : (x) % NSEC)
+/* seconds are clamped to what a 32-bit TLC integer holds: "far future" stays far future */
+#define TS(x) (long long)((x) < 0 ? -1 : ((x) / NSEC > 2147483647LL ? 2147483647LL : (x) / NSEC)), (long long)((x) < 0 ? 0 : (x) % NSEC)
 
 /* faults: the nth (1-based) call of `call` fails with errno; from!=0: every
  * call from the nth on */
@@ -69,6 +70,8 @@ void simk_advance(ns_t d);            /* scripted slow callback */
 void simk_advance_clamped(ns_t d);    /* env op while blocked */
 int  simk_nthreads(void);
 int  simk_thread_takes_signals(int t);
+int  simk_thread_alive(int t);
+void simk_sig_thread_exit(int t);
 int  simk_wait_count(void);
 
 /* simulated signals and processes (simk_sig.c) */
